@@ -20,7 +20,7 @@ func SSHSigner(name string) ssh.Signer {
 	if s, ok := signers[name]; ok {
 		return s
 	}
-	s, err := ssh.NewSignerFromKey(Key(name))
+	s, err := ssh.NewSignerFromKey(PrivKey(name))
 	if err != nil {
 		panic(fmt.Sprintf("ssh signer %s: %v", name, err))
 	}
@@ -67,4 +67,4 @@ func MakeSSHCert(s SSHCertSpec) *ssh.Certificate {
 }
 
 // SSHKeyNames are the pool keys used as ssh identities in agent histories.
-var SSHKeyNames = []string{"rsa2048b", "rsa1536", "p256b", "p384a", "p521a", "ed25519b", "ed25519c", "p256c"}
+var SSHKeyNames = []string{"rsa2048b", "rsa1536", "p256b", "p384a", "p521a", "ed25519b", "ed25519c", "p256c", "dsa1024"}
